@@ -176,6 +176,16 @@ def run(ctx):
                  ('fed_prox', {'mu': 0.5})):
     for _ in range(3):     # (the backend rotates with the position in this list: each algorithm meets jit, debug and pmap)
       variants.append((fyc, nm, dict(fy, mime_slr=R(1), mu=R(kw.get('mu', 0.0))), kw, 'rounds'))
+  # a fixed instance in which the DATA of a client changes between rounds (same id, same number of examples): in the
+  # specification these are two clients, in the run they go by one id; every round uses the data it is handed
+  fz = {'data': [[[1, 0], [2, 1]], [[-3, 2], [0, -1]], [[4, 4]]], 'init': [R(0), R(1)], 'copt': island.opt_spec('sgd', 0.5), 'sopt': island.opt_spec('sgd', 1),
+        'mu': R(0), 'rounds': 3, 'cohorts': [[1, 3], [2, 3], [1]]}
+  fzh = {'bs': 2, 'epochs': 1, 'steps': 1, 'drop': False, 'seed': 7, 'skip': True}
+  fz['stream'] = island.real_streams(fedjax, island.datasets(fedjax, fz['data']), island.hparams(fedjax, fzh))
+  fzc = {'inst': fz, 'h': fzh, 'exact': False, 'pool_a': False, 'id_alias': {2: 1}}
+  for nm, kw, which_ in (('fed_avg', {}, 'rounds'), ('hyp_cluster', {'clusters': 1}, 'rounds'), ('mime_lite', {'server_lr': 1.0}, 'rounds'),
+                         ('mime', {'server_lr': 1.0}, 'mime'), ('mime', {'server_lr': 1.0}, 'mime'), ('mime', {'server_lr': 1.0}, 'mime')):
+    variants.append((fzc, nm, dict(fz, mime_slr=R(1)), kw, which_))
   expected = island.oracle(ctx, [v[2] for v in variants], 'R')
   n_ok = 0
   skip_checked = []
